@@ -21,12 +21,14 @@ func init() {
 			"(the loop over activePersisters that calls persister.Remove has no exit other than exhaustion of the range or a definite error return), and must remove the key from the cache on every path. " +
 			"A Remove that stops at the first persister leaves the key readable from an older active epoch. " +
 			"Every pass of the Remove loop calls Remove on that pass's persister (no persister skipped); the key of every delete from persistersMapByEpoch in closePersisters is computed from the current epoch and numOfEpochsToKeep only. " +
+			"A storage.Persister is closed only by persisterData.Close. " +
 			"Not decided (value-level): the window arithmetic of changeEpoch/closePersisters, i.e. which epochs are active.",
 		Run: runC30,
 	})
 }
 
 func runC30(c *core.Ctx) {
+	c30ClosedThroughTheRecord(c)
 	fn := anchorM(c, "storage/pruning", "PruningStorer", "Remove")
 	if fn == nil {
 		return
@@ -299,4 +301,37 @@ func dominatesLatch(l *core.Loop, b *ssa.BasicBlock) bool {
 		}
 	}
 	return true
+}
+
+// c30ClosedThroughTheRecord: whether an epoch's database is open is recorded in its persisterData
+// (isClosed); every later access asks the record and re-opens the database when needed. A database
+// handle is therefore closed only by persisterData.Close, which sets the flag: closing the handle
+// directly leaves a record that says "open" over a dead handle, and every later epoch-specific read
+// of that retained epoch fails.
+func c30ClosedThroughTheRecord(c *core.Ctx) {
+	const pkg = "storage/pruning"
+	n, bad := 0, ""
+	var all []*ssa.Function
+	for _, fn := range c.P.FuncsOfPkg(pkg) {
+		all = append(all, fn)
+		all = append(all, fn.AnonFuncs...)
+	}
+	for _, fn := range all {
+		core.Instrs(fn, func(in ssa.Instruction) {
+			cc := core.CallOf(in)
+			if cc == nil || !cc.IsInvoke() || cc.Method.Name() != "Close" {
+				return
+			}
+			if !strings.HasSuffix(cc.Value.Type().String(), "storage.Persister") {
+				return
+			}
+			n++
+			if fname(fn) != "persisterData.Close" {
+				bad = fname(fn) + " at " + c.P.Pos(in.Pos())
+			}
+		})
+	}
+	c.Check(n >= 1 && bad == "", "C30/closed-through-the-record", "storage/pruning", 0,
+		"storage.Persister.Close is called by persisterData.Close only",
+		"a database handle is closed directly ("+bad+") instead of through persisterData.Close: the record keeps saying the epoch's database is open, later reads of that retained epoch use the dead handle and fail")
 }
